@@ -1126,3 +1126,100 @@ def replay_dict(c, **kw):
         d['native'] = dict(cls=c.r_native['cls'], rc=c.r_native['rc'], out=c.r_native['out'].decode('latin1')[-3000:], log=c.r_native.get('log', '')[-800:])
     d.update(kw)
     return d
+
+
+# ------------------------------------------------------------------------------------------ deterministic family: control-flag leaks
+FLAG_LOOPS = ['while', 'for']
+FLAG_ENDS = ['fall', 'continue', 'break', 'callret']          # how the distinguished iteration ends
+FLAG_POS = ['first', 'middle', 'last']
+FLAG_ENCL = ['fnbody', 'if', 'else', 'outer-while', 'outer-for', 'shadow']
+FLAG_N = 3                                                     # iterations of the loop under test
+FLAG_PER_PROGRAM = 30
+
+
+def flag_construct(g, loop, end, pos, encl, acc, kparam, helper, tag):
+    """statements: the enclosing construct, inside it the loop under test (FLAG_N iterations; the iteration at [pos] ends in the
+    way [end]) followed IN THE SAME BLOCK by a print and an update of acc -- which only happen if no control flag of the loop
+    leaked into the enclosing block.  Returns (statements, value acc must have afterwards when acc was 0 before)."""
+    NUM = lambda z: ('num', z)
+    V = lambda x: ('var', x)
+    p = dict(first=0, middle=1, last=FLAG_N - 1)[pos]
+    inc = ('set', acc, ('bin', 'add', V(acc), NUM(1)))
+    iv = g.fresh()
+    if loop == 'for':
+        idx = V(iv)                                            # 0 .. N-1
+        here = ('bin', 'eq', idx, NUM(p))
+    else:
+        idx = V(iv)                                            # the counter is incremented first: 1 .. N
+        here = ('bin', 'eq', idx, NUM(p + 1))
+    special = {'fall': [],
+               'continue': [('if', here, ('continue',), ('skip',))],
+               'break': [('if', here, ('break',), ('skip',))],
+               'callret': [('if', here, ('set', acc, ('bin', 'add', V(acc), ('call', helper, [NUM(p)]))), ('skip',))]}[end]
+    body = [('print', True, idx)] + special + [inc]
+    if loop == 'for':
+        lp = [('for', iv, NUM(0), NUM(FLAG_N), seq(body))]
+    else:
+        lp = [('let', True, iv, 'int', NUM(0)),
+              ('while', ('bin', 'lt', V(iv), NUM(FLAG_N)), seq([('set', iv, ('bin', 'add', V(iv), NUM(1)))] + body))]
+    per_loop = {'fall': FLAG_N, 'continue': FLAG_N - 1, 'break': p, 'callret': FLAG_N + p + 10}[end]
+    after = [('print', True, NUM(1000 + tag)), ('set', acc, ('bin', 'add', V(acc), NUM(10)))]
+    block = lp + after
+    once = per_loop + 10
+    if encl in ('fnbody', 'shadow'):
+        return block, once
+    if encl == 'if':
+        return [('if', ('bin', 'gt', kparam, NUM(0)), seq(block), ('print', True, NUM(-1)))], once
+    if encl == 'else':
+        return [('if', ('bin', 'lt', kparam, NUM(0)), ('print', True, NUM(-1)), seq(block))], once
+    if encl == 'outer-for':
+        o = g.fresh()
+        return [('for', o, NUM(0), NUM(2), seq(block + [('print', True, V(o))]))], 2 * once
+    o = g.fresh()
+    return [('let', True, o, 'int', NUM(0)),
+            ('while', ('bin', 'lt', V(o), NUM(2)), seq([('set', o, ('bin', 'add', V(o), NUM(1)))] + block + [('print', True, V(o))]))], 2 * once
+
+
+def flag_family():
+    """deterministic (seed-independent) cases: every loop kind x way an iteration ends x position x enclosing construct, each with
+    statements after the loop in the same block; the called helper returns from inside a loop of its own.  ~120 constructs in a
+    few programs; every assertion is true in the language."""
+    combos = []
+    for encl in FLAG_ENCL:
+        for loop in FLAG_LOOPS:
+            combos.append((loop, 'fall', 'last', encl))
+            for end in FLAG_ENDS[1:]:
+                for pos in FLAG_POS:
+                    combos.append((loop, end, pos, encl))
+    cases = []
+    for b0 in range(0, len(combos), FLAG_PER_PROGRAM):
+        g = Names(1)
+        NUM = lambda z: ('num', z)
+        V = lambda x: ('var', x)
+        hname, hv, hj = g.fresh(), g.fresh(), g.fresh()
+        # returns from inside its own loop: the callee's return must not end the caller's loop or block
+        helper = dict(name=hname, params=[(hv, 'int')], ret='int', effect=False,
+                      body=seq([('for', hj, NUM(0), NUM(FLAG_N + 1), ('if', ('bin', 'eq', V(hj), V(hv)), ('ret', ('bin', 'add', V(hj), NUM(10))), ('skip',))),
+                                ('ret', NUM(-1))]))
+        fns, shadows, order, labels = [helper], {hname: [('assert', ('bin', 'eq', ('call', hname, [NUM(1)]), NUM(11)))]}, [hname], {}
+        for k, (loop, end, pos, encl) in enumerate(combos[b0:b0 + FLAG_PER_PROGRAM]):
+            f, kp, acc, r = g.fresh(), g.fresh(), g.fresh(), g.fresh()
+            tag = b0 + k
+            labels[f] = '%s/%s/%s/%s' % (loop, end, pos, encl)
+            if encl == 'shadow':
+                stmts, exp = flag_construct(g, loop, end, pos, encl, acc, NUM(1), hname, tag)
+                fns.append(dict(name=f, params=[(kp, 'int')], ret='int', effect=False, body=('ret', V(kp))))
+                shadows[f] = [('let', True, acc, 'int', NUM(0))] + stmts + [('print', True, V(acc)), ('assert', ('bin', 'eq', V(acc), NUM(exp)))]
+            else:
+                stmts, exp = flag_construct(g, loop, end, pos, encl, acc, V(kp), hname, tag)
+                fns.append(dict(name=f, params=[(kp, 'int')], ret='int', effect=True,
+                                body=seq([('let', True, acc, 'int', NUM(0))] + stmts + [('print', True, V(acc)), ('ret', V(acc))])))
+                shadows[f] = [('let', False, r, 'int', ('call', f, [NUM(1)])), ('print', True, V(r)), ('assert', ('bin', 'eq', V(r), NUM(exp)))]
+            order.append(f)
+        fns.append(dict(name=0, params=[], ret='int', body=('ret', NUM(0)), effect=True))
+        shadows[0] = [('assert', ('bool', True))]
+        order.append(0)
+        c = hand_case('flags-%d' % (b0 // FLAG_PER_PROGRAM), dict(globals=[], fns=fns, main=0), shadows, order=order)
+        c.tag, c.flag_labels = 'flags', labels
+        cases.append(c)
+    return cases
